@@ -27,6 +27,7 @@ RULE = ("case = one typed assignment through remote.sdo[key].raw (key by index, 
         "client threads on distinct nodes, unique values per thread, noise traffic, seeded delivery delays and yield "
         "injection. Signature = (mode, type, key style, value class); distinct interleaving signatures are recorded "
         "separately; non-trivial = value not 0/1/empty.")
+RULE += (" " + "Widened later: configured Default/ParameterValues on strings and blobs, values ending in blanks / starting with byte-order-mark look-alikes, a record whose member names contain dots, an idle node flooded with unsolicited answers (blocked receive path detection), mode 'slow' (0.25 s per frame with RESPONSE_TIMEOUT raised); client time-outs in threaded modes are triaged by the delivery log.")
 ASSUMPTIONS = ["schedules are sampled (seeded delays, yield injection), not enumerated",
                "unrelated traffic = frames on COB-IDs other than the SDO channels of the nodes under test",
                "a time-out in a threaded mode is a violation only when the response is known to have been delivered"]
